@@ -149,7 +149,7 @@ func genShape(t *rapid.T) ([]byte, string) {
 	case 3: // deep nesting
 		maxD := 3000
 		if thorough() {
-			maxD = 60000
+			maxD = 30000
 		}
 		d := rapid.IntRange(1, maxD).Draw(t, "depth")
 		switch rapid.IntRange(0, 2).Draw(t, "deepkind") {
@@ -224,7 +224,7 @@ func genShape(t *rapid.T) ([]byte, string) {
 	default: // big documents
 		maxN := 30_000
 		if thorough() {
-			maxN = 400_000
+			maxN = 150_000
 		}
 		n := rapid.IntRange(1000, maxN).Draw(t, "bign")
 		b.WriteByte('[')
@@ -375,7 +375,7 @@ func genAnyDoc(t *rapid.T) ([]byte, string) {
 }
 
 func TestC02_Docs(t *testing.T) {
-	runRapid(t, "C02_Docs", nCases(40_000, 1_000_000), func(t *rapid.T) {
+	runRapid(t, "C02_Docs", nCases(40_000, 400_000), func(t *rapid.T) {
 		text, gen := genAnyDoc(t)
 		c02Eval(t, text, gen)
 	})
@@ -420,7 +420,7 @@ func TestC02_IndexSweep(t *testing.T) {
 }
 
 func TestC17_Docs(t *testing.T) {
-	runRapid(t, "C17_Docs", nCases(40_000, 1_000_000), func(t *rapid.T) {
+	runRapid(t, "C17_Docs", nCases(40_000, 500_000), func(t *rapid.T) {
 		text, gen := genAnyDoc(t)
 		c17Eval(t, text, gen)
 	})
